@@ -32,7 +32,8 @@ def run(ctx):
     d = vlib.drive(ctx, exe, 'sweep')
     ssum = json.load(open(os.path.join(d, 'summary.json')))
     execcommon.judge(ctx, exe, 'sweep', os.path.join(d, 'exec.ndjson'), 'C04', 'c04')
-    cov = dict(evaluations=ssum['Execs'] + msum['replayed'], distinct_nontrivial=ssum['TupleClasses'],
+    st = execcommon.suite(ctx, exe, 'C04', 'c04t')      # the repository's own test suite, recorded and re-derived
+    cov = dict(repository_suite=st, evaluations=st['distinct_executions'] + ssum['Execs'] + msum['replayed'], distinct_nontrivial=ssum['TupleClasses'],
                rule='evaluation = one spied lint execution under the real framework (every lint x every corpus object) plus every terminal '
                     'state of MC_Lifecycle replayed with a mock lint; non-trivial = distinct (lint, cfg, applies, body status, observed status) with observed != NA',
                samples=[msum['sample'], ssum['Samples'][0]], model_cases_replayed=msum['replayed'], objects=ssum['Objects'],
@@ -43,9 +44,11 @@ def run(ctx):
 def replay(ctx, rp):
     exe = vlib.build(ctx)
     r = rp['replay']
-    if r['kind'] in ('sweep', 'window'):
+    if r['kind'] == 'suite':
+        vlib.suite_traces(ctx)
+    if r['kind'] in ('sweep', 'window', 'suite'):
         d = vlib.drive(ctx, exe, r['kind'], extra=['-only', r['id']])
-        f = os.path.join(d, 'exec.ndjson' if r['kind'] == 'sweep' else 'window.ndjson')
+        f = os.path.join(d, {'sweep': 'exec.ndjson', 'window': 'window.ndjson', 'suite': 'suite.ndjson'}[r['kind']])
         rj, lines = vlib.tlc_trace(ctx, 'Trace_Exec', f, header=3, shards=1)
         for (ln, p) in rj:
             print('REJECT', p)
